@@ -122,6 +122,8 @@ def canon(t, extra_comm=()):
 
 def canon_nonlin(t, extra_comm=()):
     k = t[0]
+    if k == "call" and t[1] == ("builtin", "float") and len(t[2]) == 1 and not t[3] and t[2][0][0] == "attr" and t[2][0][2] in ("area", "length"):
+        return canon(t[2][0], extra_comm)  # float(g.area): the area of a shapely geometry is a float already
     if k == "call":
         f = t[1]
         args = tuple(canon(a, extra_comm) for a in t[2])
